@@ -9,6 +9,22 @@ import sys
 UNKNOWN = 999999
 
 
+class Bad:
+    """result of an operation that raised"""
+    n = 0
+
+    def __init__(self, exc):
+        Bad.n += 1
+        self.text = f'EXC#{Bad.n}:{type(exc).__name__}'
+
+
+def safe(f):
+    try:
+        return f()
+    except Exception as exc:      # the operation itself raised: reported as a result that is not a group element
+        return Bad(exc)
+
+
 def main():
     job = json.load(open(sys.argv[1]))
     repo = os.environ.get('VERIF_REPO', '/repo')
@@ -116,6 +132,8 @@ def main():
             return G(tuple(pt.normalize().value[:2]), check=False)
 
         def expo(pt):
+            if isinstance(pt, Bad):
+                return UNKNOWN
             try:
                 if pt == G.identity:
                     return 0 if order == 0 else 0
@@ -126,6 +144,8 @@ def main():
             return e % order if (order and e != UNKNOWN) else e
 
         def valid(pt):
+            if isinstance(pt, Bad):
+                return False
             try:
                 if pt == G.identity:
                     return True
@@ -138,46 +158,61 @@ def main():
         for e1 in rng:
             A = conv(e1)
             evs.append(dict(base, op='fromcoord', e1=e1, res=expo(A), valid=valid(A)))
-            evs.append(dict(base, op='inv', e1=e1, res=expo(~A), valid=valid(~A)))
-            D2 = A @ A
+            IA = safe(lambda: ~A)
+            evs.append(dict(base, op='inv', e1=e1, res=expo(IA), valid=valid(IA)))
+            D2 = safe(lambda: A @ A)
             evs.append(dict(base, op='double', e1=e1, res=expo(D2), valid=valid(D2)))
             for e2 in rng:
                 if abs(e1 + e2) > E:
                     continue
                 Bb = conv(e2)
-                C = A @ Bb if e1 != e2 else type(A).operation(A, Bb)
+                C = safe(lambda: A @ Bb if e1 != e2 else type(A).operation(A, Bb))
                 evs.append(dict(base, op='op', e1=e1, e2=e2, res=expo(C), valid=valid(C)))
-                evs.append(dict(base, op='eq', e1=e1, e2=e2, res=int(A == Bb)))
+                EQ = safe(lambda: int(A == Bb))
+                evs.append(dict(base, op='eq', e1=e1, e2=e2, res=EQ if isinstance(EQ, int) else UNKNOWN))
             for kk in (-3, -1, 0, 1, 2, 3, 5):
                 if abs(kk * e1) <= E:
-                    R = A ^ kk
+                    R = safe(lambda: A ^ kk)
                     evs.append(dict(base, op='repeat', e1=e1, n=kk, res=expo(R), valid=valid(R)))
         if G.order is not None and not rbase:
-            R = G.generator ^ G.order
+            R = safe(lambda: G.generator ^ G.order)
             evs.append(dict(base, op='order', res=expo(R)))
-            R = (G.generator ^ (G.order + 1))
+            R = safe(lambda: G.generator ^ (G.order + 1))
             evs.append(dict(base, op='fromcoord', e1=1, res=expo(R)))
-        evs.append(dict(base, op='identity', res=expo(G.identity @ G.identity)))
+        evs.append(dict(base, op='identity', res=expo(safe(lambda: G.identity @ G.identity))))
         # group laws on random elements (powers of the generator with random large exponents), compared by normal form
         if not rbase:
             for _ in range(job['laws']):
-                x, y, z = (G.generator ^ rnd.randrange(-big, big) for _ in range(3))
+                xyz = safe(lambda: [G.generator ^ rnd.randrange(-big, big) for _ in range(3)])
+                if isinstance(xyz, Bad):
+                    evs.append(dict(blank, kind='law', fam=fam, coord=coord, op='random-element', l=xyz.text, r='element'))
+                    continue
+                x, y, z = xyz
                 n1, n2 = rnd.randrange(-40, 40), rnd.randrange(-big, big)
-                nf = lambda pt: 'I' if pt == G.identity else str(keyof(pt))
-                lawev = lambda nm, l, r: evs.append(dict(blank, kind='law', fam=fam, coord=coord, op=nm, l=nf(l), r=nf(r)))
-                lawev('assoc', (x @ y) @ z, x @ (y @ z))
-                lawev('identity', x @ G.identity, x)
-                lawev('identity-left', G.identity @ x, x)
-                lawev('inverse', x @ ~x, G.identity)
-                lawev('inverse-left', ~x @ x, G.identity)
-                lawev('double', type(x).operation2(x), type(x).operation(x, x))
-                rep = G.identity
-                for _ in range(abs(n1)):
-                    rep = rep @ (x if n1 >= 0 else ~x)
-                lawev('repeat-small', x ^ n1, rep)
-                lawev('repeat-add', x ^ (n1 + n2), (x ^ n1) @ (x ^ n2))
-                lawev('repeat-mul', x ^ (n1 * n2), (x ^ n2) ^ n1)
-                lawev('repeat-neg', x ^ (-n2), ~(x ^ n2))
+                def nf(f):
+                    pt = safe(f)
+                    if isinstance(pt, Bad):
+                        return pt.text
+                    return safe(lambda: 'I' if pt == G.identity else str(keyof(pt))) if not isinstance(pt, str) else pt
+
+                def lawev(nm, l, r):
+                    a_, b_ = nf(l), nf(r)
+                    evs.append(dict(blank, kind='law', fam=fam, coord=coord, op=nm, l=a_ if isinstance(a_, str) else a_.text, r=b_ if isinstance(b_, str) else b_.text))
+                lawev('assoc', lambda: (x @ y) @ z, lambda: x @ (y @ z))
+                lawev('identity', lambda: x @ G.identity, lambda: x)
+                lawev('identity-left', lambda: G.identity @ x, lambda: x)
+                lawev('inverse', lambda: x @ ~x, lambda: G.identity)
+                lawev('inverse-left', lambda: ~x @ x, lambda: G.identity)
+                lawev('double', lambda: type(x).operation2(x), lambda: type(x).operation(x, x))
+                def rep():
+                    r_ = G.identity
+                    for _ in range(abs(n1)):
+                        r_ = r_ @ (x if n1 >= 0 else ~x)
+                    return r_
+                lawev('repeat-small', lambda: x ^ n1, rep)
+                lawev('repeat-add', lambda: x ^ (n1 + n2), lambda: (x ^ n1) @ (x ^ n2))
+                lawev('repeat-mul', lambda: x ^ (n1 * n2), lambda: (x ^ n2) ^ n1)
+                lawev('repeat-neg', lambda: x ^ (-n2), lambda: ~(x ^ n2))
         # encode / decode
         if hasattr(G, 'encode') and not rbase:
             for m in job['messages']:
